@@ -139,6 +139,7 @@ def check_commit_discipline(prog, rep, prop="C06"):
             ok = g.postdominates(rn, g.entry)
             rep.check(ok, "COMMIT-D", fi.short, "counter reset", "counter reset on every path", "counter reset is conditional", fi.loc(resets[0]))
 
+    commit_failure_propagates(prog, rep, "COMMIT-D")
     # (f) who may touch the connection
     n_checked = 0
     for f2 in prog.funcs.values():
@@ -405,6 +406,7 @@ def check_age_test(prog, rep):
     init = cls.methods.get("__init__")
     istamps = [n for n in walk_own(init.node) if isinstance(n, ast.Assign) and any(norm(t) == "self.last_commit" for t in n.targets)]
     rep.check(bool(istamps), "AGE-STAMP", init.short, "self.last_commit", "initialised", "self.last_commit is never initialised", init.loc())
+    commit_failure_propagates(prog, rep, "AGE-STAMP")
     # one clock: the instant the age is measured from and the instant it is measured at must come from the same clock
     kinds = {}
     for n in good:
@@ -413,6 +415,29 @@ def check_age_test(prog, rep):
         kinds[f"stamp ({f_.short}:{st_.lineno})"] = _clock_kinds(st_.value, f_)
     distinct = {frozenset(v) for v in kinds.values()}
     rep.check(len(distinct) == 1 and all(len(v) == 1 for v in kinds.values()), "AGE-STAMP", fi.short, "one clock", f"{sorted(next(iter(distinct)))}" if distinct else "", f"the age is the difference of readings of different clocks {({k: sorted(v) for k, v in kinds.items()})}: local wall time and UTC differ by the UTC offset, so the computed age is hours off (east of UTC it never exceeds the threshold and buffered writes are not flushed by age; west of UTC every write commits)", fi.loc(), expected="the same clock call in the stamps and in the age test", found=str({k: sorted(v) for k, v in kinds.items()}))
+
+
+def commit_failure_propagates(prog, rep, rule):
+    """a flush that failed must not be booked as a flush: if self.conn.commit() sits in a try, every handler re-raises"""
+    cls = prog.cls("SqliteStorage")
+    fi = cls.methods.get("commit")
+    if fi is None:
+        return
+    for c in [n for n in walk_own(fi.node) if isinstance(n, ast.Call) and norm(n.func) == "self.conn.commit"]:
+        p = parent(c)
+        tries = []
+        child = c
+        while p is not None and p is not fi.node:
+            if isinstance(p, ast.Try) and any(child is x or any(child is y for y in ast.walk(x)) for x in p.body):
+                tries.append(p)
+            child, p = p, parent(p)
+        bad = None
+        for t in tries:
+            for h in t.handlers:
+                last = h.body[-1] if h.body else None
+                if not isinstance(last, ast.Raise):
+                    bad = h
+        rep.check(bad is None, rule, fi.short, "a failed conn.commit() propagates", "no handler swallows the failure", f"`except {norm(bad.type) if bad is not None and bad.type is not None else ''}` around self.conn.commit() does not re-raise: when the flush fails (database locked, disk full) commit() still stamps last_commit and zeroes the counter, so the failed flush is booked as a flush: the write that triggered it returns un-flushed, and both the count bound and the age bound start over", fi.loc(bad if bad is not None else c))
 
 
 def check_no_rollback(prog, rep, rule="NO-ROLLBACK"):
